@@ -26,3 +26,13 @@ def register():
     H[('TlsExtensionCertificateStatusRequestClient', 'extensions')] = ('vector', TlsCertificateStatusRequestExtensions)
     from cryptoparser.tls.extension import TlsSignatureAndHashAlgorithmVector
     H[('TlsHandshakeCertificateRequest', 'supported_signature_algorithms')] = ('optional', ('vector', TlsSignatureAndHashAlgorithmVector))
+    from cryptoparser.tls.rdp import RDPProtocol, RDPNegotiationRequestFlags, RDPNegotiationResponseFlags
+    from cryptoparser.tls.mysql import MySQLCapability, MySQLStatusFlag
+    from cryptoparser.dnsrec.record import DnsSecFlag
+    H[('RDPNegotiationRequest', 'flags')] = ('flags', RDPNegotiationRequestFlags)
+    H[('RDPNegotiationResponse', 'flags')] = ('flags', RDPNegotiationResponseFlags)
+    H[('RDPNegotiationBase', 'protocol')] = ('flags', RDPProtocol)
+    H[('MySQLHandshakeV10', 'capabilities')] = ('flags', MySQLCapability)
+    H[('MySQLHandshakeV10', 'states')] = ('flags', MySQLStatusFlag)
+    H[('MySQLHandshakeSslRequest', 'capabilities')] = ('flags', MySQLCapability)
+    H[('DnsRecordDnskey', 'flags')] = ('flags', DnsSecFlag)
